@@ -113,11 +113,12 @@ CLAIMS = {
          "timer) having been issued no earlier than that expiry or being a non-replacing update not reaching beyond it (never for a cancelled or superseded timer). Plus C18_update (fold of the "
          "contract), C18_begins (exactly one TimerBegin at that instant per update that set the timer), C18_end, C18_only_by_firing, C18_earliest, C18_not_past. Fix F7 was found by this check.", "DESIGN.md section 0 and 4, C18"),
 
- "C19": ("PARTIAL (filters: theorem for max_trace_length = 0, the bounded case is checked as a prefix relation by the monitor). Totality: C19_no_assertion for total clocks, and C19_std_clock "
-         "for the real std clock (the only possible panic is the Duration overflow inside an embedded framework, finding F6 of C01). Theorems C19_projection (filtered run = filter of the unfiltered run, Panic/OutOfFuel included), C19_no_assertion (sim_advanced never returns Panic: "
-         "no BUG assertion, unwrap or index failure, for every non-empty well-routed queue and machines with in-range targets), C19_time (the time-backwards check is dead code, trace sorted, "
-         "final sort is the identity), C19_bounds (trace-length and iteration bounds, pick_next's recursion ends). Reproducibility: the model is a function of (machines, queue, args, tape); the "
-         "monitor runs every case twice. Fix F9 (pps = 2^32) was found by this check.", "DESIGN.md section 0 and 4, C19"),
+ "C19": ("Theorems C19_projection (no trace-length bound: the filtered run equals the filter of the unfiltered run, Panic/OutOfFuel included), C19_projection_bounded (bound M > 0: the filtered run returns exactly "
+         "the first M elements of the filtered trace of the unfiltered, unbounded run), C19_no_assertion (sim_advanced never returns Panic -- no BUG assertion, unwrap or index failure -- for every non-empty "
+         "well-routed queue, machines with in-range targets and a total clock), C19_std_clock (real std clock: the only possible panic is the Duration overflow inside an embedded framework, finding F6 of C01), "
+         "C19_time (the time-backwards check is dead code, the trace is sorted, the final sort is the identity), C19_bounds (trace-length and iteration bounds respected, pick_next's recursion ends). "
+         "Reproducibility: the model is a function of (machines, queue, args, tape); the monitor runs every case twice and compares; simulations run in a supervised child process so that a run that does "
+         "not return is reported as a violation. Fix F9 (pps = 2^32) was found by this check.", "DESIGN.md section 0 and 4, C19"),
 }
 
 NOT_YET = "check not built yet (in progress; planned per DESIGN.md section 7)"
